@@ -7,6 +7,7 @@ use serde_json::Value;
 pub mod c01;
 pub mod c02;
 pub mod c03;
+pub mod c04;
 pub mod c05;
 pub mod c06;
 pub mod c07;
@@ -16,6 +17,7 @@ pub mod c13;
 pub mod c14;
 pub mod c15;
 pub mod c16;
+pub mod c17;
 pub mod c19;
 pub mod normfam;
 pub mod c20;
@@ -25,6 +27,7 @@ pub fn run(prop: &str, cfg: &Cfg) -> Outcome {
         "C01" => c01::run(cfg),
         "C02" => c02::run(cfg),
         "C03" => c03::run(cfg),
+        "C04" => c04::run(cfg),
         "C05" => c05::run(cfg),
         "C06" => c06::run(cfg),
         "C07" => c07::run(cfg),
@@ -34,6 +37,7 @@ pub fn run(prop: &str, cfg: &Cfg) -> Outcome {
         "C14" => c14::run(cfg),
         "C15" => c15::run(cfg),
         "C16" => c16::run(cfg),
+        "C17" => c17::run(cfg),
         "C19" => c19::run(cfg),
         "C20" => c20::run(cfg),
         _ => {
@@ -48,6 +52,7 @@ pub fn replay(prop: &str, cfg: &Cfg, case: &Value) -> Vec<Violation> {
         "C01" => c01::replay(cfg, case),
         "C02" => c02::replay(cfg, case),
         "C03" => c03::replay(cfg, case),
+        "C04" => c04::replay(cfg, case),
         "C05" => c05::replay(cfg, case),
         "C06" => c06::replay(cfg, case),
         "C07" => c07::replay(cfg, case),
@@ -57,6 +62,7 @@ pub fn replay(prop: &str, cfg: &Cfg, case: &Value) -> Vec<Violation> {
         "C14" => c14::replay(cfg, case),
         "C15" => c15::replay(cfg, case),
         "C16" => c16::replay(cfg, case),
+        "C17" => c17::replay(cfg, case),
         "C19" => c19::replay(cfg, case),
         "C20" => c20::replay(cfg, case),
         _ => {
